@@ -1,6 +1,8 @@
 import Driver.Util
 import TurnModel.Model.Framer
 import TurnModel.Model.PortRange
+import TurnModel.Model.LtCred
+import TurnModel.Model.Nonce
 namespace Drv
 open Turn
 
@@ -50,6 +52,37 @@ def protoStep (toks : List String) : Option String :=
     some (showRes toHex (xorAddrAdd (parseHex tid) (parseHex ip) (natOf port)))
   | ["xoraddr", "get", tid, v] =>
     some (showRes (fun (p : Bytes × Nat) => s!"{toHex p.1} {p.2}") (xorAddrGet (parseHex tid) (optHex v)))
+  | ["snv", hl, now, thex, oracle] =>
+    let text := String.ofList ((parseHex thex).map (fun b => Char.ofNat b.toNat))
+    let orc : Option (List Nat × List Nat) := match oracle.splitOn ":" with
+      | [a, b] => some ((parseHex a).map (·.toNat), (parseHex b).map (·.toNat))
+      | _ => none
+    let p : Turn.Nonce.Params := ⟨fun ts => match orc with
+        | some (t, m) => if t == ts then m else List.replicate 32 1000      -- unknown timestamps never match
+        | none => List.replicate 32 1000, natOf hl⟩
+    some (if Turn.Nonce.validateText p text (natOf now) then "ok" else "bad")
+  | ["lnv", now, thex, oracle] =>
+    let text := String.ofList ((parseHex thex).map (fun b => Char.ofNat b.toNat))
+    let orc : Option (List Nat × List Nat) := match oracle.splitOn ":" with
+      | [a, b] => some ((parseHex a).map (·.toNat), (parseHex b).map (·.toNat))
+      | _ => none
+    let mac : List Nat → List Nat := fun ts => match orc with
+        | some (t, m) => if t == ts then m else List.replicate 32 1000
+        | none => List.replicate 32 1000
+    -- hex.DecodeString: even length, only hex digits (either case)
+    let isHex := text.toList.all (fun c => c.isDigit || ('a' ≤ c && c ≤ 'f') || ('A' ≤ c && c ≤ 'F'))
+    let bytes := if isHex && text.length % 2 == 0 then some ((parseHex text).map (·.toNat)) else none
+    some (match bytes with
+      | some bs => if Turn.Nonce.validateLong mac 3600000 bs (natOf now) then "ok" else "bad"
+      | none => "bad")
+  | ["lt", kind, now, uhex] =>
+    let uname := String.ofList ((parseHex uhex).map (fun b => Char.ofNat b.toNat))
+    let E : Turn.LtCred.Env := ⟨fun _ _ => "", fun _ _ _ => []⟩
+    let r := if kind == "rest" then Turn.LtCred.handlerREST E "" uname "" (Int.ofNat (natOf now))
+             else Turn.LtCred.handler E "" uname "" (Int.ofNat (natOf now))
+    some (match r with
+      | some (uid, _) => "ok " ++ toHex (uid.toList.map (fun c => UInt8.ofNat c.toNat))
+      | none => "no")
   | ["pr", mn, mx, retries, req, used, rands] =>
     let csv (s : String) : List Nat := if s == "-" then [] else (s.splitOn ",").map natOf
     let c : Turn.PortRange.Cfg := ⟨natOf mn, natOf mx, natOf retries⟩
